@@ -215,6 +215,14 @@ class PydanticGrammar(BaseGrammar):
             # Pydantic requires a dict, using a mapping fails.
             self.__model.model_validate(dict(data), strict=True)
         except ValidationError as errors:
+            # The required names are handled by the base class
+            # from the current required names:
+            # a field that is missing at the root of the data is not an error here.
+            if all(
+                error["type"] == "missing" and len(error["loc"]) == 1
+                for error in errors.errors()
+            ):
+                return True
             for line in str(errors).split("\n"):
                 error_message.add(line)
             return False
